@@ -26,6 +26,25 @@ Prng(key, n) == PrngGo(key, n, 0, <<>>)
 Key(tag, nums) == StrToUtf8(tag) \o Concat([i \in 1..Len(nums) |-> <<255>> \o BnFromNat(nums[i])])
 \* uniform-ish natural below m (m < 2^23) from a key
 PrngNat(key, m) == LET b == Prng(key, 3) IN (b[1] * 65536 + b[2] * 256 + b[3]) % m
+\* ---- collisions of positional (polynomial) hashes ---------------------------------------------------
+\* h(b) = sum b[i] B^(n-i) for a small multiplier B (31: Java's String.hashCode, 33: djb2, 37, 131, 257) is unchanged when
+\* two neighbouring bytes move by (+k, -k B).  PolyTwin(b, pos, B, k) is that twin of b, or <<>> if a byte would leave
+\* 1..255 (or 0..255 when zero is allowed).  A lookup, cache or comparison keyed by such a hash confuses b with its twins.
+PolyBases == <<31, 33, 37, 131, 257>>
+PolyTwin(b, pos, B, k, minByte) ==
+  IF pos < 1 \/ pos >= Len(b) THEN <<>>
+  ELSE LET x == b[pos] + k  y == b[pos + 1] - k * B IN
+       IF x < minByte \/ x > 255 \/ y < minByte \/ y > 255 THEN <<>>
+       ELSE [i \in 1..Len(b) |-> IF i = pos THEN x ELSE IF i = pos + 1 THEN y ELSE b[i]]
+\* all twins of b for the bases and k = +-1, +-2 at every position
+PolyTwins(b, minByte) ==
+  SelectSeq([q \in 1..(Len(PolyBases) * 4 * (IF Len(b) > 1 THEN Len(b) - 1 ELSE 0)) |->
+               LET pos == 1 + ((q - 1) \div (Len(PolyBases) * 4))
+                   B   == PolyBases[1 + (((q - 1) \div 4) % Len(PolyBases))]
+                   k   == <<1, 0 - 1, 2, 0 - 2>>[1 + ((q - 1) % 4)]
+               IN  PolyTwin(b, pos, B, k, minByte)],
+            LAMBDA t : t # <<>>)
+
 \* ---- characters to put into a digit position -------------------------------------------------------
 \* every character U+0001..U+00FF, and for the significant ASCII characters of the textual grammars (digits, hex
 \* letters, x, m, /, ', +, -) the code points that ALIAS them when a code point is truncated to 8 or 16 bits:
